@@ -66,7 +66,7 @@ pub struct Profile {
 
 pub fn profile_for(prop: &str, thorough: bool) -> Profile {
     let mut w = BASE_WEIGHTS;
-    let mut p = Profile { weights: w, refuse_pct: 0, natural_oom: false, min_steps: 5, max_steps: 40, large_pct: 0, large_prefill: 0, giant_div: if thorough { 400 } else { 25 }, marathon_div: if thorough { 1500 } else { 120 } };
+    let mut p = Profile { weights: w, refuse_pct: 0, natural_oom: false, min_steps: 5, max_steps: 40, large_pct: 0, large_prefill: 0, giant_div: if thorough { 400 } else { 25 }, marathon_div: if thorough { 2500 } else { 200 } };
     let mul = |w: &mut [u32; N_CAT], cats: &[usize], m: u32| {
         for &c in cats {
             w[c] = w[c].max(1) * m;
@@ -289,7 +289,7 @@ pub fn gen_config(rng: &mut Rng, prof: &Profile, overhead: usize) -> (Config, Ge
     let steps = if giant { steps.min(24) } else { steps };
     let universe = if giant { prefill + 64 } else { universe };
     // once in a while a FIFO run is preceded by more than 2^20 unchecked churn operations
-    let marathon = if fifo && rng.chance(1, prof.marathon_div) { (1u32 << 20) + 40_000 + rng.below(30_000) as u32 } else { 0 };
+    let marathon = if fifo && rng.chance(1, prof.marathon_div) { 3 * (1u32 << 20) + 200_000 + rng.below(60_000) as u32 } else { 0 };
     let cfg = Config { ctor, mode, salt, max_size, universe, prefill, prefill_vh: vheaps[0], marathon };
     let fresh_pct = if fifo { 100 } else if churn { *rng.pick(&[0u32, 50, 90, 100]) } else { *rng.pick(&[0u32, 0, 0, 5, 30]) };
     let gs = GenState { kheaps, vheaps, weights, recent_gone: Vec::new(), two_caches, refuse_pct: prof.refuse_pct, natural_oom: prof.natural_oom, fresh_next: universe.max(1) + 1000, fresh_pct, fixed_sizes: fifo };
